@@ -105,7 +105,74 @@ func (a AuthCase) Sx() string {
 	if a.SplitOpts {
 		mem += " (splitopts)"
 	}
-	return fmt.Sprintf("(case (limits %d %d) (ctor %s)%s %s %s (rx))", a.MaxFacts, a.MaxIter, ctor, mem, sxList("tokens", toks), sxList("ops", ops))
+	return fmt.Sprintf("(case (limits %d %d) (ctor %s)%s %s %s %s)", a.MaxFacts, a.MaxIter, ctor, mem, sxList("tokens", toks), sxList("ops", ops), a.rxSx())
+}
+
+// rxSx: the regex oracle for a case that uses `matches` — every string of the case against
+// every string of the case, by the standard library directly.
+func (a AuthCase) rxSx() string {
+	var pool []string
+	hasRx := false
+	term := func(t Term) { collectStrings(t, &pool) }
+	pred := func(p Pred) {
+		for _, t := range p.Terms {
+			term(t)
+		}
+	}
+	rule := func(rl Rule) {
+		pred(rl.Head)
+		for _, p := range rl.Body {
+			pred(p)
+		}
+		for _, e := range rl.Exprs {
+			for _, o := range e {
+				if o.K == 'v' {
+					term(o.T)
+				}
+				if o.K == 'b' && o.B == "regex" {
+					hasRx = true
+				}
+			}
+		}
+	}
+	rules := func(rs []Rule) {
+		for _, rl := range rs {
+			rule(rl)
+		}
+	}
+	for _, t := range a.Tokens {
+		for _, b := range t {
+			for _, f := range b.Facts {
+				pred(f)
+			}
+			rules(b.Rules)
+			for _, ck := range b.Checks {
+				rules(ck.Queries)
+			}
+		}
+	}
+	var walk func(ops []AuthOp)
+	walk = func(ops []AuthOp) {
+		for _, o := range ops {
+			switch o.K {
+			case "addfact":
+				pred(o.Fact)
+			case "addrule", "query":
+				rule(o.Rule)
+			case "addcheck":
+				rules(o.Check.Queries)
+			case "addpolicy":
+				rules(o.Policy.Queries)
+			case "load":
+				walk(o.Sub)
+			}
+		}
+	}
+	walk(a.Ops)
+	if !hasRx {
+		return "(rx)"
+	}
+	return rxTable(pool)
 }
 
 func decAuthCase(cs *Sx) (AuthCase, error) {
@@ -655,6 +722,8 @@ func (g *scenGen) atom() Pred {
 	return p
 }
 
+var rxPatterns = []string{"^a", "b$", "a.b", "^file[0-9]$", "x|ab", "[ab]+", "^$", "e", "^read|write$", "1"}
+
 func (g *scenGen) expr(vars []string) Expr {
 	r := g.r
 	if g.mode == 1 {
@@ -671,6 +740,11 @@ func (g *scenGen) expr(vars []string) Expr {
 		case 2:
 			return Expr{{K: 'v', T: I(int64(r.Intn(3)))}, {K: 'v', T: I(int64(r.Intn(3)))}, {K: 'b', B: Pick(r, []string{"lt", "le", "eq", "ge"})}}
 		default:
+			if r.Chance(1, 3) {
+				// `matches` with a pattern that compiles; which strings sit at which symbol
+				// index differs from case to case and with the order of presentation
+				return Expr{{K: 'v', T: S(Pick(r, []string{"ab", "file1", "b", ""}))}, {K: 'v', T: S(Pick(r, rxPatterns))}, {K: 'b', B: "regex"}}
+			}
 			return Expr{{K: 'v', T: S("ab")}, {K: 'v', T: S(Pick(r, []string{"a", "b"}))}, {K: 'b', B: Pick(r, []string{"prefix", "suffix", "contains"})}}
 		}
 	}
@@ -679,6 +753,9 @@ func (g *scenGen) expr(vars []string) Expr {
 			return Op{K: 'v', T: V(Pick(r, vars))}
 		}
 		return Op{K: 'v', T: Pick(r, g.consts)}
+	}
+	if r.Chance(1, 8) {
+		return Expr{operand(), {K: 'v', T: S(Pick(r, rxPatterns))}, {K: 'b', B: "regex"}}
 	}
 	switch r.Intn(4) {
 	case 0:
